@@ -5,6 +5,7 @@ import (
 	"strings"
 	"sync"
 	"sync/atomic"
+	"unsafe"
 
 	sse "github.com/tmaxmax/go-sse"
 )
@@ -216,4 +217,28 @@ func ProbeShape(replayer any) (s Shape) {
 		}
 	}
 	return s
+}
+
+// SetAutoIDCounter moves the automatic-ID counter of a FiniteReplayer/ValidReplayer to next, so
+// that histories can cross interesting values (9 -> 10 digits, 2^31, 2^32, 2^63) without
+// billions of Puts. It must be called before the first Put. It writes the unexported counter
+// through reflect + unsafe (harness only); it reports false, and changes nothing, if the field
+// cannot be found (renamed), in which case callers simply start from 0.
+func SetAutoIDCounter(replayer any, next uint64) (ok bool) {
+	defer func() {
+		if recover() != nil {
+			ok = false
+		}
+	}()
+	v := reflect.ValueOf(replayer)
+	if v.Kind() != reflect.Pointer {
+		return false
+	}
+	f := v.Elem().FieldByName("currentID")
+	if !f.IsValid() || f.Kind() != reflect.Pointer || f.IsNil() || f.Type().Elem().Kind() != reflect.Uint64 {
+		return false
+	}
+	p := (*uint64)(unsafe.Pointer(f.Pointer()))
+	*p = next
+	return true
 }
